@@ -193,10 +193,15 @@ class _W:
         return next(object.__getattribute__(self, "_f"))
 
 
+_GZ = []     # the mode of the gzip.open call in progress (its file is opened by GzipFile through builtins.open)
+
+
 def my_open(file, mode="r", *a, **kw):
     rel = _rel(file) if isinstance(file, (str, bytes, os.PathLike)) else None
     if rel is not None and isinstance(mode, str) and any(c in mode for c in "wax+"):
-        n = _bump("open:" + mode, rel)
+        # a file opened by gzip.open is ONE mutation (op `gzip:<mode>`), performed by this nested open; the proxy sees
+        # the compressed bytes: its close is the moment the gzip trailer has reached the file
+        n = _bump(("gzip:" + _GZ.pop()) if _GZ else ("open:" + mode), rel)
         f = _open(file, mode, *a, **kw)
         _after(n)
         if rel.endswith(".log") or rel.endswith(".log.old"):
@@ -208,10 +213,11 @@ def my_open(file, mode="r", *a, **kw):
 def my_gz(file, mode="rb", *a, **kw):
     rel = _rel(file) if isinstance(file, (str, bytes, os.PathLike)) else None
     if rel is not None and isinstance(mode, str) and any(c in mode for c in "wax"):
-        n = _bump("gzip:" + mode, rel)
-        f = _gzopen(file, mode, *a, **kw)
-        _after(n)
-        return f
+        _GZ.append(mode)
+        try:
+            return _gzopen(file, mode, *a, **kw)
+        finally:
+            del _GZ[:]
     return _gzopen(file, mode, *a, **kw)
 
 
